@@ -249,7 +249,7 @@ def check_containers(ctx, t, a):
 def phase_a(ctx):
     sh, n = ctx.shard, ctx.nshards
     it = gen.INT_TIMES
-    ft = gen.FLOAT_TIMES
+    ft = gen.FLOAT_TIMES + [float('inf'), float('-inf'), 1.7976931348623157e308, -1e-310, 2.0 ** 53 + 2]   # every float but nan equals itself
     i = -1
     per_type = {}
     for t, a in midi1.all_nonsysex():
